@@ -96,6 +96,24 @@ def concretize(v, model, memo=None):
         for k, x in v.fields.items():
             out['fields'][k] = concretize(x, model, memo)
         return out
+    if isinstance(v, SymList):
+        n = min(ev(v.n).as_long(), 64)
+        items = []
+        for i in range(n):
+            fields = {}
+            for f, (fn, kind) in v.funcs.items():
+                val = ev(fn(z3.IntVal(i)))
+                if kind == 'str':
+                    from .values import _unescape_z3
+                    fields[f] = _unescape_z3(val.as_string())
+                elif kind == 'int':
+                    fields[f] = val.as_long()
+                else:
+                    fields[f] = z3.is_true(val)
+            memo[('symlist', v.name, i)] = len(memo) + 1
+            items.append({'__class__': f"{v.cls.__module__}:{v.cls.__qualname__}", '__id__': memo[('symlist', v.name, i)],
+                          'fields': fields})
+        return items
     if isinstance(v, SeqPart):
         n = ev(v.n).as_long()
         return {'__segment__': v.name, 'n': n}
@@ -143,15 +161,19 @@ def sliced_node(world, c, node):
     stop = c.body_slice['stop_before']
     new = copy.copy(node)
     body = []
-    found = False
+    found = None
     for st in node.body:
         if stop in sm.segment(st):
-            found = True
+            found = st
             break
         body.append(st)
-    if not found:
+    if found is None:
         raise Unsupported(f"slice marker {stop!r} not found in {c.qualname}")
-    ret = ast.Return(value=ast.parse(c.body_slice['result'], mode='eval').body)
+    from .runtime import slice_result_expr
+    try:
+        ret = ast.Return(value=slice_result_expr(c.body_slice, found, node))
+    except ValueError as e:
+        raise Unsupported(str(e))
     ast.copy_location(ret, node.body[-1])
     ast.fix_missing_locations(ret)
     new.body = body + [ret]
@@ -249,10 +271,17 @@ def make_run(world, c, combo, use_contracts, spec_builtins):
         for k, n in oc.unwind.items():
             unwind.setdefault((oc.qualname, k), n)
     invs = {(c.qualname, k): v for k, v in c.invariants.items()}
+    models = dict(c.symlist_models)
+    for oc in use_contracts.values():
+        for k, v in oc.symlist_models.items():
+            models.setdefault(k, v)
 
     def run(st):
         config = {'spec_builtins': spec_builtins, 'invariants': invs, 'watch_attrs': set(c.watch_attrs),
                   'spec_modules': tuple(m for m in world.sources if m.startswith('contracts.') or m == 'pyvc.speclib')}
+        if models:
+            from . import folds
+            folds.install(config, models)
         I = Interp(world, st, use_contracts=use_contracts, unwind=unwind, top=c.key, config=config)
         args = {}
         for name, spec in combo.items():
@@ -275,6 +304,8 @@ def make_run(world, c, combo, use_contracts, spec_builtins):
             outcome = ('return', result)
         except PyRaise as e:
             outcome = ('raise', e.exc_type, e.lineno)
+        except _PathEnd:
+            return ('pathend', None)
         post = Env(dict(args), pyglobals=genv)
         if outcome[0] == 'return':
             post.vars['result'] = outcome[1]
@@ -351,6 +382,8 @@ def verify_combo(world, c, combo, use_contracts, spec_builtins):
             continue
         if outcome[0] == 'return':
             out['returns'] += 1
+        elif outcome[0] == 'pathend':
+            out['loop_step_paths'] = out.get('loop_step_paths', 0) + 1
         else:
             out['raises'][outcome[1]] = out['raises'].get(outcome[1], 0) + 1
         for vc in st.vcs:
@@ -420,7 +453,7 @@ def apply_contract_at_call(I, c, f, args, kwargs, node):
         for cl in c.ensures:
             # kept out of the feasibility solver (definitional facts about the result; feasibility
             # is over-approximated, every VC still carries them)
-            st.assume(eval_clause(I, cl.expr, env), lazy=True)
+            st.assume(eval_clause(I, cl.expr, env), lazy=not c.eager_ensures)
         st.events.append(('call', c.name, dict(bound), res))
         return res
     finally:
@@ -431,5 +464,78 @@ def exec_loop_with_invariant(I, node, env, inv, qn, k):
     raise Unsupported("loop invariants for while loops: not implemented yet")
 
 
+class _PathEnd(Exception):
+    """this path ends here (its continuation is covered by another path): no outcome, no post-condition"""
+
+
+def _assigned_names(body):
+    out = []
+    for n in ast.walk(ast.Module(body=body, type_ignores=[])):
+        if isinstance(n, ast.Name) and isinstance(n.ctx, ast.Store) and n.id not in out:
+            out.append(n.id)
+    return out
+
+
 def exec_for_with_invariant(I, node, env, inv, qn, k):
-    raise Unsupported("loop invariants for for loops: not implemented yet")
+    """`for <target> in <list of symbolic length>` verified with an inductive invariant.
+    inv = {'inv': expression over the locals and the index `__i` (number of completed iterations)}
+    Generated obligations:  loop<k>.inv_entry  (holds for __i = 0),  loop<k>.inv_preserved  (one arbitrary iteration);
+    the code after the loop is executed from an arbitrary state satisfying the invariant with __i = len."""
+    from .interp import _Break, _Continue
+    from . import models
+    st = I.st
+    itv = I.eval(node.iter, env)
+    if isinstance(itv, EnumSym):
+        L, start, enum = itv.lst, itv.start, True
+    elif isinstance(itv, SymList):
+        L, start, enum = itv, 0, False
+    else:
+        raise Unsupported("loop invariant on a loop over a concrete-length container")
+    genv = env.pyglobals
+    clause = inv['inv']
+
+    def inv_truth(i_val):
+        e = Env({'__i': i_val}, parent=env, pyglobals=I.config['old_env'].pyglobals)
+        return eval_clause(I, clause, e)
+
+    # 1. entry
+    st.add_vc(f"loop{k}.inv_entry", 'invariant', inv_truth(0), {'level': 'sup', 'function': qn, 'line': node.lineno})
+    # 2. havoc everything the body assigns (same kinds), pick an arbitrary number of completed iterations
+    modified = _assigned_names(node.body)
+    tnames = [n.id for n in ast.walk(node.target) if isinstance(n, ast.Name)]
+    for name in modified:
+        if name in tnames:
+            continue
+        ok, cur = env.lookup(name)
+        if not ok:
+            continue        # first assigned inside the loop: no value flows in
+        if is_intlike(cur) and not isinstance(cur, (bool, SBool)):
+            env.vars[name] = SInt(st.fresh_int('hv_' + name))
+        elif isinstance(cur, (bool, SBool)):
+            env.vars[name] = SBool(st.fresh_bool('hv_' + name))
+        elif is_strlike(cur):
+            env.vars[name] = SStr([Sq(st.fresh_str('hv_' + name))])
+        else:
+            raise Unsupported(f"loop invariant: cannot havoc local '{name}' of kind {kind_of(cur)}")
+    zi = st.fresh_int('it')
+    st.assume(zi >= 0)
+    in_loop = st.fresh_bool('in_loop')
+    if I.branch(in_loop):
+        # an arbitrary iteration
+        st.assume(zi < L.n)
+        st.assume(inv_truth(SInt(zi)))
+        elem = models.symlist_elem(I, L, zi)
+        I.assign(node.target, (mk_int(zi + start), elem) if enum else elem, env)
+        try:
+            I.exec_block(node.body, env)
+        except _Continue:
+            pass
+        except _Break:
+            return          # leaves the loop: the code behind it runs from the current state
+        st.add_vc(f"loop{k}.inv_preserved", 'invariant', inv_truth(mk_int(zi + 1)),
+                  {'level': 'sup', 'function': qn, 'line': node.lineno})
+        raise _PathEnd()
+    # loop finished: all iterations done
+    st.assume(zi == L.n)
+    st.assume(inv_truth(SInt(zi)))
+    I.exec_block(node.orelse, env)
